@@ -9,5 +9,7 @@ go build -o bin/check ./cmd/check
 go build -o bin/shimgen ./cmd/shimgen
 go build ./...
 # warm the build cache for the harness worlds against the current tree (best effort)
-for p in C19; do ./bin/check -p $p -budget 1 -workers 2 -noshrink >/dev/null 2>&1 || true; done
+warm=$(mktemp -d /var/tmp/verif-warm.XXXXXX)
+for p in C19; do VERIF_OUTDIR=$warm ./bin/check -p $p -budget 1 -workers 2 -noshrink >/dev/null 2>&1 || true; done
+rm -rf "$warm"
 echo "setup ok"
